@@ -22,7 +22,7 @@ func init() {
 		Phases: func(tier string) []engine.Phase {
 			zs := zooms(tier)
 			return []engine.Phase{
-				{Name: "object-roundtrip", ShardDepth: 2, Bounds: engine.Bounds{InputDev: -1},
+				{Name: "object-roundtrip", Serial: true, Bounds: engine.Bounds{InputDev: -1},
 					Rule: "full product h x v x x,y in HIdx(h) x f in VIdx(v): NewExtendedSpatialID(s).ID()==s, FieldParams and getters positional, GetVoxelIDfromSpatialID; non-trivial = distinct IDs whose five components are pairwise distinct",
 					Body: func(c *engine.Ctx) {
 						h := zs[c.In("h", len(zs))]
@@ -70,7 +70,7 @@ func init() {
 							c.Violation("C10:ExtendedSpatialID.setters:print-differs", d)
 						}
 					}},
-				{Name: "notation-lists", ShardDepth: 2, Bounds: engine.Bounds{InputDev: -1},
+				{Name: "notation-lists", Serial: true, Bounds: engine.Bounds{InputDev: -1},
 					Rule: "full product z x list shape (length 0..3 with repeats) over IDs with distinct components: spatial->extended->spatial and extended->spatial->extended are identities, positional, order and length preserved; non-trivial = distinct lists of length >= 2",
 					Body: func(c *engine.Ctx) {
 						z := zs[c.In("z", len(zs))]
@@ -112,7 +112,7 @@ func init() {
 							c.Violation("C10:notation-roundtrip:not-identity", d)
 						}
 					}},
-				{Name: "expansion", ShardDepth: 2, Bounds: engine.Bounds{InputDev: -1},
+				{Name: "expansion", Serial: true, Bounds: engine.Bounds{InputDev: -1},
 					Rule: "full product h x v with |h-v| <= 4 x x,y in HIdxSmall(h) x f in VIdx(v): ConvertExtendedSpatialIDToSpatialIDs is duplicate-free, all at max(h,v), count 4^d or 2^d, and its union is exactly the voxel (ref.ChangeZoom); non-trivial = distinct IDs with h != v",
 					Body: func(c *engine.Ctx) {
 						h := zs[c.In("h", len(zs))]
